@@ -119,6 +119,7 @@ def handleCore (st : St) (l : Line) : Option (St × List String) := do
       | "retrieve_array_subset" => pure (st, [optVal (cfg.retrieveArraySubset st.st (← parseSubset (← l.get "r")))])
       | "keys" => pure (st, ["keys " ++ (if st.st.isEmpty then "~" else ",".intercalate (st.st.keys.map String.ofList))])
       | "reopen" => pure (st, ["ok"])
+      | "raw" => pure (st, ["any"])     -- judged by the C05 handler
       -- C06 routes: every route must return what the plain model read of the same region returns
       | "cache_new" => pure (st, ["ok"])
       | "shard_cache_new" => pure (st, ["ok"])
